@@ -225,7 +225,12 @@ class C14(object):
                                                                   "the pixels that were selected" % route)
                             dense = spf.to_dense("intensity")
                             out = enginea.garbage_array((ns, nf), data.dtype, cfg["garbage_seed"] + 5, 1, 1, 9)
+                            if rnd.random() < 0.3:
+                                out = np.asfortranarray(out)       # e.g. one image of a Fortran-ordered stack
                             dense2 = spf.to_dense("intensity", out=out)
+                            if np.asarray(dense2).shape == out.shape and (np.asarray(out) != np.asarray(dense2)).any():
+                                viol = V("roundtrip-differs", "to_dense(out=...) returns the image but does not leave it in the "
+                                                              "caller's array")
                             if (np.asarray(dense) != want).any():
                                 viol = V("roundtrip-differs", "to_dense(from_data_%s(...)) differs from the selected pixels" % route)
                             elif (np.asarray(dense2) != want).any():
